@@ -34,7 +34,7 @@ def canary_addr(traces):
 
 def run(tier):
     return run_queue_prop(
-        'C13', tier, [], [canary_twice, canary_missing, canary_addr],
+        'C13', tier, ['a'] if tier == 'quick' else ['a', 'a2', 'b'], [canary_twice, canary_missing, canary_addr],
         rule='failure histories: whole-message permanent failure, per-recipient permanent failures with equal or different '
              'replies, retry exhaustion with grouped transient replies, failing bounces, null senders, a bounce factory '
              'returning None, headers-only bounces; 8-bit bodies; DFS over outcome choices; non-trivial = at least one '
